@@ -3,6 +3,9 @@ import FcpptProofs.C15.Extract
 import FcpptProofs.C15.EnumVec
 import FcpptProofs.C15.Old
 import FcpptProofs.C15.Widen
+import FcpptProofs.C15.Stream
+import FcpptProofs.C15.TextExt
+import FcpptProofs.C15.Toy
 /-!
 # C15 — textual and binary encodings round-trip losslessly: property theorems
 
@@ -153,6 +156,74 @@ theorem read_some_complete (native : Endian) (t : IntTy) (s : List Byte) (e : En
       have h2 : ((s.take t.bytes).reverse).length = t.bytes := by rw [List.length_reverse]; exact hlen
       rw [objRep_ofObjRep native t _ ht h2, List.reverse_reverse, objRep_ofObjRep native t _ ht hlen]
 
+
+/-! ### one `std::stringstream` object (`Model/C15/Stream.lean`): the state bits are shared by both directions -/
+
+/-- Values of ANY mix of arithmetic types and byte orders written to one stream come back in the same order when read
+with the same types and byte orders; exactly the bytes written are consumed (`rest` is what the stream held behind
+them), the stream stays good. -/
+theorem stream_fifo_roundtrip (native : Endian) (items : List Item) (hok : ∀ i ∈ items, 0 < i.t.bytes ∧ i.t.InRange i.v) :
+    ∃ s1, ioWriteAll native {} items = .ok s1 ∧ s1.good = true ∧
+      ioReadAll native s1 (items.map fun i => (i.t, i.e)) = .ok ({}, items.map fun i => some i.v) := by
+  refine ⟨{ buf := wires native items }, ?_, rfl, ?_⟩
+  · have := ioWriteAll_good native items {} rfl
+    simpa using this
+  · have := ioReadAll_wires native items hok { buf := wires native items } [] rfl (by simp)
+    simpa using this
+
+/-- … also when the stream already held something and when more follows: writes append, reads take from the front. -/
+theorem stream_write_appends_read_takes (native : Endian) (items : List Item) (hok : ∀ i ∈ items, 0 < i.t.bytes ∧ i.t.InRange i.v)
+    (s : BStream) (hg : s.good = true) :
+    (∃ out, ioWriteAll native s items = .ok { s with buf := s.buf ++ out } ∧ out.length = (items.map fun i => i.t.bytes).sum ∧
+      ∀ rest, ioReadAll native { s with buf := out ++ rest } (items.map fun i => (i.t, i.e)) =
+        .ok ({ s with buf := rest }, items.map fun i => some i.v)) := by
+  refine ⟨wires native items, ioWriteAll_good native items s hg, ?_, fun rest => ?_⟩
+  · clear hok
+    induction items with
+    | nil => rfl
+    | cons i r ih => simp [wires, wire_length] at ih ⊢
+  · exact ioReadAll_wires native items hok { s with buf := wires native items ++ rest } rest (by simpa [BStream.good] using hg) rfl
+
+/-- A read from a good stream that holds fewer than `sizeof(Type)` bytes yields no value, swallows what was there and
+leaves `eofbit | failbit` behind … -/
+theorem stream_short_read_fails (native : Endian) (t : IntTy) (s : BStream) (e : Endian) (hg : s.good = true) (hl : s.buf.length < t.bytes) :
+    ioRead native t s e = .ok ({ buf := [], eof := true, fail := true }, none) :=
+  ioRead_short native t s e hg hl
+
+/-- … and from then on (until `clear()`) nothing is read and nothing is written: every `io::read` yields no value,
+every `io::write` leaves the stream as it is, `write_chars` reports `false`, `read_chars` nothing. -/
+theorem stream_failure_is_sticky (native : Endian) (t : IntTy) (s : BStream) (v : Int) (e : Endian) (data : List Byte) (n : Nat)
+    (hf : s.fail = true) :
+    ioRead native t s e = .ok (s, none) ∧ ioWrite native t s v e = .ok s ∧ writeChars s data = (s, false) ∧ readChars s n = (s, none) := by
+  have hg : s.good = false := by simp [BStream.good, hf]
+  have hs : ({ s with fail := true } : BStream) = s := by cases s; simp_all
+  refine ⟨by rw [ioRead_not_good native t s e hg, hs], ioWrite_not_good native t s v e hg, ?_, ?_⟩
+  · simp [writeChars, BStream.put, hg]
+  · simp [readChars, BStream.get, BStream.good, hf, hs]
+
+/-- `clear()` makes the stream usable again; what was written before the failure and not yet read is still there. -/
+theorem stream_clear_recovers (native : Endian) (t : IntTy) (s : BStream) (v : Int) (e : Endian) (ht : 0 < t.bytes) (hv : t.InRange v)
+    (hb : s.buf = []) :
+    ∃ s1, ioWrite native t s.clear v e = .ok s1 ∧ ioRead native t s1 e = .ok (s.clear, some v) := by
+  have hg : s.clear.good = true := rfl
+  refine ⟨_, ioWrite_good native t s.clear v e hg, ?_⟩
+  have hbuf : s.clear.buf = [] := hb
+  have hread := read_wire native t v e ht hv []
+  have := ioRead_good_enough native t { s.clear with buf := s.clear.buf ++ wire native t v e } e rfl
+    (by simp [hbuf, wire_length]) v [] (by simpa [hbuf] using hread)
+  rw [this]
+  simp [BStream.clear, hb]
+
+/-- `write_chars` then `read_chars` of the same count gives the bytes back and leaves the stream good and empty; one
+byte more cannot be read: no buffer, never a shorter one. -/
+theorem write_chars_read_chars_roundtrip (data : List Byte) :
+    writeChars {} data = ({ buf := data }, true) ∧ readChars { buf := data } data.length = ({}, some data) ∧
+    readChars { buf := data } (data.length + 1) = ({ buf := [], eof := true, fail := true }, none) := by
+  refine ⟨rfl, ?_, ?_⟩
+  · simp [readChars, BStream.get, BStream.good]
+  · simp [readChars, BStream.get, BStream.good]
+
+
 /-! ### non-vacuity: concrete values on the little-endian machine of the sandbox -/
 
 def u32 : IntTy := ⟨4, false⟩
@@ -167,6 +238,9 @@ example : swap .little i16 1 = .ok 256 := by decide
 example : swap .little i16 128 = .ok (-32768) := by decide
 example : reverseMem [1, 2, 3, 4, 5] = .ok [5, 4, 3, 2, 1] := by decide
 example : u32.InRange 0x01020304 ∧ i16.InRange (-2) := by decide
+example : (ioWriteAll .little {} [⟨u32, .big, 1⟩, ⟨i16, .little, -2⟩]).map (·.buf) = .ok [0, 0, 0, 1, 0xFE, 0xFF] := by decide
+example : ioReadAll .little { buf := [0, 0, 0, 1, 0xFE, 0xFF] } [(u32, .big), (i16, .little), (u32, .big), (i16, .big)] =
+    .ok ({ buf := [], eof := true, fail := true }, [some 1, some (-2), none, none]) := by decide
 
 
 /-! ## decimal text (`output_to_string`, `extract_from_string`) -/
@@ -237,6 +311,83 @@ theorem extract_never_truncates_char (sg : Bool) (s : List Ch) (v : Int) (h : ex
       · simp [peek, sentry, IStream.good] at h; exact h.symm
     | cons d r => simp [peek, sentry, IStream.good] at h
 
+
+/-! ### `bool`, strings, other locales -/
+
+/-- `extract_from_string<bool>(output_to_string(b)) = b` for both values. -/
+theorem extract_output_roundtrip_bool (b : Bool) : extractFromStringG extractBool (putBool b) = some b := by
+  cases b <;> decide
+
+/-- A `bool` is only ever produced from a complete numeral whose value is 0 or 1 (`"2"`, `"1x"`, `"1 "` fail). -/
+theorem extract_bool_never_truncates (s : List Ch) (b : Bool) (h : extractFromStringG extractBool s = some b) :
+    ∃ neg mag, Spec.IsNumeral s neg mag ∧ (if b then (1 : Int) else 0) = Spec.numeralValue true 64 neg mag := by
+  obtain ⟨neg, mag, hn, _, hv⟩ := extractFromString_num_some ⟨8, true⟩ (by decide) s _ (extractBool_as_long s b h)
+  exact ⟨neg, mag, hn, hv⟩
+
+/-- Strings: `os << s` writes `s`; `extract_from_string<std::string>` gives it back iff it is non-empty and free of
+white space (leading white space in the source is skipped) … -/
+theorem extract_string_roundtrip (ws w : List Ch) (hws : ∀ c ∈ ws, isSpace c = true) (hne : w ≠ []) (hw : ∀ c ∈ w, isSpace c = false) :
+    extractFromStringG extractString (ws ++ w) = some w :=
+  extractString_of_word ws w hws hne hw
+
+/-- … and a result is always the WHOLE text behind the leading white space — a string with a blank inside or behind it
+is a reported failure, never its first word. -/
+theorem extract_string_never_a_part (s w : List Ch) (h : extractFromStringG extractString s = some w) :
+    w ≠ [] ∧ (∀ c ∈ w, isSpace c = false) ∧ ∃ ws, (∀ c ∈ ws, isSpace c = true) ∧ s = ws ++ w := by
+  obtain ⟨h1, h2, h3⟩ := extractString_some s w h
+  exact ⟨h1, h2, s.takeWhile isSpace, takeWhile_all s, h3⟩
+
+theorem extract_string_with_blank_fails (a b : List Ch) (ha : a ≠ []) (haw : ∀ c ∈ a, isSpace c = false) :
+    extractFromStringG extractString (a ++ 32 :: b) = none := by
+  cases h : extractFromStringG extractString (a ++ 32 :: b) with
+  | none => rfl
+  | some w =>
+    exfalso
+    obtain ⟨_, hw, ws, hws, hs⟩ := extract_string_never_a_part _ w h
+    -- the first character of `a` is not white space, so `ws` is empty and `w` contains the blank
+    cases ws with
+    | nil =>
+      have : (32 : Ch) ∈ w := by rw [← List.nil_append w, ← hs]; simp
+      have := hw 32 this
+      simp [isSpace] at this
+    | cons c ws =>
+      cases a with
+      | nil => exact ha rfl
+      | cons d a =>
+        simp only [List.cons_append, List.cons.injEq] at hs
+        have h1 := haw d (by simp)
+        have h2 := hws c (by simp)
+        rw [← hs.1, h1] at h2
+        cases h2
+
+/-- A locale whose `numpunct` groups digits only inserts separators: without them the text is the classic one … -/
+theorem grouped_output_is_classic_plus_separators (v : Int) : (putIntGrouped v).filter (· != 44) = putInt v :=
+  putIntGrouped_filter v
+
+/-- … so the value comes back. -/
+theorem extract_output_roundtrip_grouped (t : IntTy) (ht : 0 < t.bytes) (h8 : t.bytes ≤ 8) (v : Int) (hv : t.InRange v) :
+    extractFromString (.num t) ((putIntGrouped v).filter (· != 44)) = some v := by
+  rw [putIntGrouped_filter]; exact extract_output_roundtrip t ht h8 v hv
+
+/-- With a locale in which one more character `x` counts as white space (and is neither a digit nor a sign), any run of
+white space and `x` in front of the numeral is skipped. -/
+theorem extract_other_ctype_skips (x : Ch) (hx : isDigit x = false ∧ x ≠ 45) (t : IntTy) (ht : 0 < t.bytes) (h8 : t.bytes ≤ 8)
+    (v : Int) (hv : t.InRange v) (pre : List Ch) (hpre : ∀ c ∈ pre, isSpace c = true ∨ c = x) :
+    extractFromStringX x t (pre ++ putInt v) = some v := by
+  obtain ⟨c, r, hp, hc⟩ := putInt_head' v
+  have hcs : (isSpace c || c == x) = false := by
+    rcases hc with rfl | hc
+    · have : (45 == x) = false := by simp; exact fun h => hx.2 h.symm
+      simp [isSpace, this]
+    · have h1 := isSpace_digit hc
+      have : (c == x) = false := by
+        simp; intro h; rw [h] at hc; rw [hx.1] at hc; cases hc
+      simp [h1, this]
+  unfold extractFromStringX
+  rw [dropWhile_pre pre _ (fun c hc' => by rcases hpre c hc' with h | h <;> simp [h])]
+  rw [hp, List.dropWhile_cons_of_neg (by simp [hcs]), ← hp]
+  exact extract_output_roundtrip t ht h8 v hv
+
 /-! ### the defect repaired by 900f8ee, refuted on a witness: with `iss.eof()` no character could ever be extracted -/
 
 example : Old.extractFromString (.char true) [97] = none := by decide
@@ -295,6 +446,63 @@ theorem enum_stream_roundtrip (names : List (List Ch)) (hn : names.Nodup) (e : N
   rw [getWord_word n rest hne (fun c hc => (hw c hc).1) hr]
   simp [hnar, enumFromString, indexOf_getElem names hn e n hidx]
 
+
+/-- What stream input does on ANY text and ANY names table (duplicates, blanks, empty names allowed): it skips white
+space, takes the first word up to the next white space (or the end), and the result is `from_string` of exactly that
+word — the first enumerator carrying it — or `failbit` if it is not a name or contains a NUL; the stream stops right
+behind the word.  So a name with a blank inside can never be read back as a whole (its first word is looked up), and a
+duplicated name reads back as the first enumerator with that name. -/
+theorem enum_input_is_from_string_of_first_word (names : List (List Ch)) (ws w rest : List Ch) (hws : ∀ c ∈ ws, isSpace c = true)
+    (hne : w ≠ []) (hw : ∀ c ∈ w, isSpace c = false) (hr : SpaceHead rest) :
+    enumInput names (IStream.ofString (ws ++ (w ++ rest))) =
+      match (narrowString w).bind (enumFromString names) with
+      | some e => ({ buf := rest, eof := rest.isEmpty, fail := false }, some e)
+      | none => ({ buf := rest, eof := rest.isEmpty, fail := true }, none) :=
+  enumInput_word names ws w rest hws hne hw hr
+
+/-- … the same through a `wchar_t` stream (a character outside ASCII cannot be narrowed: failure). -/
+theorem enum_input_wide_is_from_string_of_first_word (names : List (List Ch)) (ws w rest : List Ch) (hws : ∀ c ∈ ws, isSpace c = true)
+    (hne : w ≠ []) (hw : ∀ c ∈ w, isSpace c = false) (hr : SpaceHead rest) :
+    enumInputW names (IStream.ofString (ws ++ (w ++ rest))) =
+      match (narrowStringW w).bind (enumFromString names) with
+      | some e => ({ buf := rest, eof := rest.isEmpty, fail := false }, some e)
+      | none => ({ buf := rest, eof := rest.isEmpty, fail := true }, none) :=
+  enumInputW_word names ws w rest hws hne hw hr
+
+/-- At the end of the text (only white space left) input fails with `eofbit | failbit` and stores nothing. -/
+theorem enum_input_at_end_fails (names : List (List Ch)) (ws : List Ch) (hws : ∀ c ∈ ws, isSpace c = true) :
+    enumInput names (IStream.ofString ws) = ({ buf := [], eof := true, fail := true }, none) :=
+  enumInput_no_word names ws hws
+
+/-- Stream round trip without assuming distinct names: what comes back is the FIRST enumerator with that name. -/
+theorem enum_stream_roundtrip_first (names : List (List Ch)) (e : Nat) (n : List Ch) (ws rest : List Ch)
+    (hname : enumToString names e = .ok n) (hne : n ≠ []) (hw : ∀ c ∈ n, isSpace c = false ∧ c ≠ 0)
+    (hws : ∀ c ∈ ws, isSpace c = true) (hr : SpaceHead rest) :
+    ∃ out e', enumOutput names [] e = .ok out ∧ enumFromString names n = some e' ∧ e' ≤ e ∧ enumToString names e' = .ok n ∧
+      enumInput names (IStream.ofString (ws ++ (out ++ rest))) = ({ buf := rest, eof := rest.isEmpty, fail := false }, some e') := by
+  have hidx : names[e]? = some n := by
+    unfold enumToString at hname
+    cases h : names[e]? with
+    | none => simp [h] at hname
+    | some m => simp [h] at hname; rw [hname]
+  have hmem : n ∈ names := List.mem_of_getElem? hidx
+  cases hf : enumFromString names n with
+  | none => exact absurd hmem ((from_string_none_iff names n).1 hf)
+  | some e' =>
+    obtain ⟨h1, h2⟩ := to_string_from_string names n e' hf
+    have hle : e' ≤ e := by
+      apply Nat.le_of_not_lt
+      intro hlt
+      exact h2 e hlt hname
+    have hnar : narrowString n = some n := by
+      unfold narrowString
+      rw [if_neg]
+      simp only [List.any_eq_true, not_exists, not_and]
+      intro c hc; simp; exact (hw c hc).2
+    refine ⟨n, e', by simp [enumOutput, hname, bind, Except.bind, pure, Except.pure], rfl, hle, h1, ?_⟩
+    rw [enumInput_word names ws n rest hws hne (fun c hc => (hw c hc).1) hr]
+    simp [hnar, hf]
+
 /-! ### non-vacuity and the role of the hypothesis: with a duplicated name the first enumerator wins -/
 example : enumFromString [[97], [98], [97]] [97] = some 0 := by decide
 example : enumToString [[97], [98], [97]] 2 = .ok [97] := by decide
@@ -319,10 +527,89 @@ theorem vector_input_output_roundtrip (t : IntTy) (ht : 0 < t.bytes) (h8 : t.byt
   simp only [List.reverse_nil, List.nil_append]
   rw [expect_match 41 _ (by decide)]
 
+
+/-- White space is tolerated in front of `(`, around every number and in front of `)`: any such text reads as the same
+vector, and the stream stops right behind `)`. -/
+theorem vector_input_whitespace_tolerant (t : IntTy) (ht : 0 < t.bytes) (h8 : t.bytes ≤ 8)
+    (w0 : List Ch) (items : List (List Ch × Int × List Ch)) (rest : List Ch) (hw0 : AllSpace w0)
+    (hi : ∀ i ∈ items, AllSpace i.1 ∧ t.InRange i.2.1 ∧ AllSpace i.2.2) :
+    vecInput t items.length (IStream.ofString (w0 ++ 40 :: (vecBodyWs items ++ 41 :: rest))) =
+      ({ buf := rest, eof := false, fail := false }, items.map (·.2.1)) := by
+  simp only [vecInput, IStream.ofString, expect_ws w0 40 _ hw0 (by decide), vecInputLoop_bodyWs t ht h8 items hi rest [],
+    List.reverse_nil, List.nil_append]
+  cases hitems : items with
+  | nil => simp [expect_match 41 _ (by decide)]
+  | cons i r =>
+    simp only [reduceCtorEq, if_false]
+    have hsp : AllSpace (((i :: r).getLast?.map (·.2.2)).getD []) := by
+      cases hl : (i :: r).getLast? with
+      | none => intro c hc; simp at hc
+      | some x =>
+        have := hi x (by rw [hitems]; exact List.mem_of_getLast? hl)
+        simpa using this.2.2
+    rw [expect_ws _ 41 rest hsp (by decide)]
+
+/-- Several vectors written one after another (white space between them allowed) are read back one by one from the
+same stream: each `>>` stops right behind its `)`. -/
+theorem vector_sequence_roundtrip (t : IntTy) (ht : 0 < t.bytes) (h8 : t.bytes ≤ 8) (n : Nat)
+    (items : List (List Ch × List Int)) (hi : ∀ i ∈ items, AllSpace i.1 ∧ i.2.length = n ∧ ∀ v ∈ i.2, t.InRange v) (rest : List Ch) :
+    vecInputMany t n items.length (IStream.ofString ((items.flatMap fun i => i.1 ++ vecOutput i.2 []) ++ rest)) =
+      ({ buf := rest, eof := false, fail := false }, items.map (·.2)) := by
+  induction items with
+  | nil => simp [vecInputMany, IStream.ofString]
+  | cons i r ih =>
+    obtain ⟨sep, vs⟩ := i
+    obtain ⟨hsep, hlen, hv⟩ := hi (sep, vs) (by simp)
+    have ih' := ih (fun x hx => hi x (by simp [hx]))
+    simp only [List.length_cons, vecInputMany, List.flatMap_cons, List.append_assoc, List.map_cons]
+    -- the first vector: the whitespace-tolerant theorem with no white space inside
+    have h1 := vector_input_whitespace_tolerant t ht h8 sep (vs.map fun v => ([], v, [])) ((r.flatMap fun i => i.1 ++ vecOutput i.2 []) ++ rest) hsep
+      (by intro x hx; obtain ⟨v, hvm, rfl⟩ := List.mem_map.1 hx; exact ⟨by intro c hc; simp at hc, hv v hvm, by intro c hc; simp at hc⟩)
+    rw [List.length_map, vecBodyWs_plain, hlen] at h1
+    have hout : vecOutput vs [] = 40 :: (vecBody vs ++ [41]) := by simp [vecOutput_eq]
+    simp only [hout, List.cons_append, List.append_assoc, List.nil_append, IStream.ofString] at h1 ih' ⊢
+    simp only [h1, ih', List.map_map]
+    simp [Function.comp_def]
+
+/-- Matrix output is `one_dimensional_output` over the rows: `(` row `,` row … `)` with every row printed as a vector
+(there is no matrix input operator; each row is text that `>>` of a vector reads back by the theorems above). -/
+theorem matrix_output_is_rows (rows : List (List Int)) (out : List Ch) :
+    matOutput rows out = out ++ [40] ++ matBody rows ++ [41] := by
+  simp [matOutput, matOutputLoop_eq]
+
+example : matOutput [[1, 2], [3, -4]] [] = [40, 40, 49, 44, 50, 41, 44, 40, 51, 44, 45, 52, 41, 41] := by decide
+
 example : vecOutput [1, -2, 3] [] = [40, 49, 44, 45, 50, 44, 51, 41] := by decide
 example : vecInput ⟨4, true⟩ 2 (IStream.ofString [40, 32, 49, 32, 44, 50, 41, 120]) = ({ buf := [120], eof := false, fail := false }, [1, 2]) := by decide
 /-- a missing `)` is a failure -/
 example : (vecInput ⟨4, true⟩ 2 (IStream.ofString [40, 49, 44, 50])).1.fail = true := by decide
+
+
+/-! ### the stream helpers `io::peek`, `io::get`, `io::expect` -/
+
+/-- `io::peek` does not consume and does not change the state when it sees a character: `io::get` right after it
+returns that character and removes exactly it. -/
+theorem get_after_peek (s : IStream) (c : Ch) (h : (peek s).2 = some c) :
+    ∃ r, (peek s).1 = s ∧ s.buf = c :: r ∧ ioGet s = ({ s with buf := r }, some c) :=
+  get_after_peek' s c h
+
+/-- `io::expect(stream, c)` skips white space and consumes exactly one further character; `failbit` is set iff that
+character is not `c` (the stream does not put it back) … -/
+theorem expect_consumes_one_character (ws : List Ch) (d : Ch) (rest : List Ch) (c : Ch) (hws : ∀ x ∈ ws, isSpace x = true) (hd : isSpace d = false) :
+    expect (IStream.ofString (ws ++ d :: rest)) c = { buf := rest, eof := false, fail := decide (d ≠ c) } :=
+  expect_spec' ws d rest c hws hd
+
+/-- … and at the end of the text it fails with `eofbit | failbit`. -/
+theorem expect_at_end_fails (ws : List Ch) (c : Ch) (hws : ∀ x ∈ ws, isSpace x = true) :
+    expect (IStream.ofString ws) c = { buf := [], eof := true, fail := true } :=
+  expect_at_end' ws c hws
+
+/-- `enum_::array` output: `[` name `=` value `,` … `]`, names in enumerator order. -/
+theorem enum_array_output_form (names : List (List Ch)) (vals : List Int) (out : List Ch) :
+    enumArrayOutput names vals out = out ++ [91] ++ enumArrayBody (names.zip vals) ++ [93] := by
+  simp [enumArrayOutput, enumArrayOutputLoop_eq]
+
+example : enumArrayOutput [[97], [98]] [1, -2] [] = [91, 97, 61, 49, 44, 98, 61, 45, 50, 93] := by decide
 
 /-! ## the `impl::codecvt` loop over an arbitrary converter -/
 
@@ -369,6 +656,75 @@ theorem codecvt_succeeds_on_good_input {σ In Out : Type} (cv : Converter σ In 
     (hc : Contract cv R) (Good : σ → List In → Prop) (hl : Live cv Good) (string : List In) (hg : Good cv.init string) :
     ∃ out, codecvt cv string = .ok (some out) :=
   codecvt_succeeds cv R hc Good hl string hg
+
+
+/-- Termination and absence of faults need no meaning of "conversion" at all: ANY converter that writes inside its
+window, reads inside its input and produces output only from consumed input — whatever results it reports, however
+untruthful its `max_length()` — makes `impl::codecvt` return (a result or a failure) within `2n + 3` iterations. -/
+theorem codecvt_total {σ In Out : Type} (cv : Converter σ In Out)
+    (hwin : ∀ s inp w, (cv.step s inp w).produced.length ≤ w) (hbound : ∀ s inp w, (cv.step s inp w).consumed ≤ inp.length)
+    (hprog : ∀ s inp w, (cv.step s inp w).produced ≠ [] → 0 < (cv.step s inp w).consumed)
+    (hinit : cv.isInit cv.init = true) (string : List In) : ∃ res, codecvt cv string = .ok res := by
+  obtain ⟨res, h, _⟩ := codecvt_outcome cv (fun _ _ _ _ => True)
+    ⟨hwin, hbound, fun _ _ _ _ => trivial, fun s inp w _ hp => hprog s inp w hp⟩ ⟨fun _ => trivial, fun _ _ => trivial⟩ hinit string
+  exact ⟨res, h⟩
+
+/-- The scripted facets the harness installs (every flag set, every `max_length()`, every chunk size, both directions)
+are such converters: the model of the loop never faults or diverges on them, so every `toy` line of the correspondence
+compares a genuine result. -/
+theorem toy_codecvt_total (p : Toy) (wide : Bool) (s : List Nat) : ∃ res, toyCodecvt p wide s = .ok res := by
+  have hc := toy_contract p wide
+  refine codecvt_total (toyConverter p wide) hc.window hc.bound (fun st inp w hp => ?_) rfl s
+  have := (toyGo_spec p st inp w 0 []).2.2.2
+  simp only [toyConverter, toyStep] at hp ⊢
+  exact this (by simpa using List.length_pos_iff.mpr hp)
+
+
+/-- The scripted facets are a second, very different instance of the abstract loop theorem (a state that is not initial
+between two calls, `noconv`, `error`, `partial` without output, chunked calls, `ok` with input left over): with the
+meaning `ToyRel` of their conversion (a function of state and input, `toyRel_functional`), whatever `impl::codecvt`
+returns for ANY parameter set and ANY input is the input itself (`noconv`) or THE complete conversion ending in the
+initial state — never a part of it. -/
+theorem toy_codecvt_complete_or_fail (p : Toy) (wide : Bool) (s : List Nat) :
+    ∃ res, toyCodecvt p wide s = .ok res ∧
+      (res = none ∨ res = some (s.map (toyConverter p wide).cast) ∨ ∃ out, res = some out ∧ ToyRel 0 s out 0 ∧
+        ∀ out' st', ToyRel 0 s out' st' → out' = out ∧ st' = 0) := by
+  obtain ⟨res, h, ho⟩ := codecvt_outcome (toyConverter p wide) ToyRel (toy_contract_sound p wide) toyRel_compositional rfl s
+  refine ⟨res, h, ?_⟩
+  rcases ho with ho | ⟨ho, _⟩ | ⟨out, s', ho, hr, hi⟩
+  · exact Or.inl ho
+  · exact Or.inr (Or.inl ho)
+  · have hs : s' = 0 := by simpa [toyConverter] using hi
+    subst hs
+    exact Or.inr (Or.inr ⟨out, ho, hr, fun out' st' h' => toyRel_functional h' hr⟩)
+
+
+/-! non-vacuity: the branches the C.utf8 facet never takes -/
+example : toyCodecvt ⟨true, false, false, 3, 0⟩ false [1, 15, 5] = .ok (some [2, 2, 20]) := by decide
+/-- chunked calls and a lead unit whose follower arrives in the next call: the state is carried from call to call -/
+example : toyCodecvt ⟨true, false, true, 3, 2⟩ false [2, 15, 5, 3] = .ok (some [3, 3, 3, 20, 4]) := by decide
+/-- `noconv`: the input itself (sign-extended `char` → `wchar_t`), not what the buffer held so far -/
+example : toyCodecvt ⟨true, false, false, 3, 0⟩ false [1, 0xFD] = .ok (some [1, 0xFFFFFFFD]) := by decide
+/-- a lead unit at the very end: failure, whether the facet swallows it (`ok`, state not initial) or holds it back (`partial`, nothing written) -/
+example : toyCodecvt ⟨true, false, false, 3, 0⟩ false [1, 15] = .ok none ∧ toyCodecvt ⟨false, false, false, 3, 0⟩ false [1, 15] = .ok none := by decide
+/-- an untruthful `max_length()` makes the loop give up although the input is fine (a failure, never a part) -/
+example : toyCodecvt ⟨true, false, false, 1, 0⟩ false [2] = .ok none ∧ toyCodecvt ⟨true, false, false, 3, 0⟩ false [2] = .ok (some [3, 3, 3]) := by decide
+
+/-- `error` in the first call is a failure, `noconv` in the first call returns the input itself (converted character
+by character) — never the buffer. -/
+theorem codecvt_first_call_error_or_noconv {σ In Out : Type} (cv : Converter σ In Out) (string : List In) (hne : string ≠ [])
+    (hwin : (cv.step cv.init string string.length).produced.length ≤ string.length)
+    (hbound : (cv.step cv.init string string.length).consumed ≤ string.length) :
+    ((cv.step cv.init string string.length).res = .error → codecvt cv string = .ok none) ∧
+    ((cv.step cv.init string string.length).res = .noconv → codecvt cv string = .ok (some (string.map cv.cast))) := by
+  have he : string.isEmpty = false := by cases string <;> simp_all
+  constructor <;> intro h <;>
+  · unfold codecvt
+    simp only [he, Bool.false_eq_true, if_false, loopFuel]
+    unfold codecvtLoop
+    simp only [Buf.create, List.drop_zero, Nat.zero_add]
+    rw [if_neg (by omega)]
+    simp [h]
 
 /-- The model of the C.utf8 facet (libstdc++ over glibc, validated against the real facet on every run) satisfies the
 contract and is live on valid input — the hypotheses above are not vacuous. -/
@@ -493,6 +849,22 @@ theorem widen_fails_on_invalid (bs : List Nat) (hn : nulWhilePending [] bs = fal
   · exact h
   · obtain ⟨hb, hv⟩ := hs hn
     exact absurd ⟨out, hv, hb⟩ hbad
+
+
+/-! ## to / from `fcppt::string` (`FCPPT_NARROW_STRING`: `fcppt::string` is `std::string`) -/
+
+/-- `to_std_string(from_std_string(s)) = s` for every byte string (no conversion takes place, any locale). -/
+theorem to_std_string_from_std_string (s : List Nat) : toStdString (fromStdString s) = some s := rfl
+
+/-- `to_std_wstring(from_std_wstring(ws)) = ws` for every string of valid characters, and `from_std_wstring` either
+gives the complete UTF-8 form or fails. -/
+theorem to_std_wstring_from_std_wstring (ws : List Nat) (hv : ∀ c ∈ ws, validWc c = true) :
+    ∃ bs, fromStdWstring ws = .ok (some bs) ∧ toStdWstring bs = .ok (some ws) :=
+  ⟨_, (narrow_widen_roundtrip ws hv).1, (narrow_widen_roundtrip ws hv).2⟩
+
+theorem from_std_wstring_complete_or_fail (ws : List Nat) :
+    fromStdWstring ws = .ok none ∨ (fromStdWstring ws = .ok (some (Spec.utf8EncodeAll ws)) ∧ ∀ c ∈ ws, validWc c = true) :=
+  narrow_complete_or_fail ws
 
 /-! ### non-vacuity -/
 example : Spec.IsScalar 0x10FFFF ∧ Spec.IsScalar 0x1F600 ∧ ¬ Spec.IsScalar 0xD800 := by
